@@ -8,8 +8,7 @@
   `MaxIncludeDepth`, `Cfg.limit`, of them: beyond that a rebuild itself truncates the tree),
   `Initialize` with a fresh loader, then ANY sequence `us` of edits; an edit is delivered as
   the server delivers it (`step`): UpdateFile on didChange while the disk has the old text,
-  the write, UpdateFile on didSave, with the getters called after each.  Go's map iteration
-  orders (`σ`, `Upd.σ1`, `Upd.σ2`) are arbitrary.
+  the write, UpdateFile on didSave, with the getters called after each.
 -/
 import HL.Lemmas.Run
 import HL.Lemmas.Formats
@@ -22,18 +21,18 @@ open HL.Lemmas.Index HL.Lemmas.WsInv HL.Lemmas.Update HL.Lemmas.Init HL.Lemmas.V
     is positive (so the derived name lists are the sorted supports), the transaction index
     holds per key exactly the indexed files' entries, every stored payee template is the
     template of an indexed file, and the derived lists are those of `refreshDerived`. -/
-theorem index_is_sum (cfg : Cfg) (σ : List String) (fs : FS) (us : List Upd)
-    (h : Setting cfg fs us) : IdxInv cfg.fixT (run cfg σ fs us).w.idx :=
-  (run_ok cfg σ fs us h.ok h.nonempty h.clean h.limit h.upds).1.pinv.g.idx
+theorem index_is_sum (cfg : Cfg) (fs : FS) (us : List Upd)
+    (h : Setting cfg fs us) : IdxInv cfg.fixT (run cfg fs us).w.idx :=
+  (run_ok cfg fs us h.ok h.nonempty h.clean h.limit h.upds).1.pinv.g.idx
 
 /-- the counter part of `index_is_sum`, spelled out for the account counts. -/
-theorem index_is_sum_accounts (cfg : Cfg) (σ : List String) (fs : FS) (us : List Upd)
+theorem index_is_sum_accounts (cfg : Cfg) (fs : FS) (us : List Upd)
     (h : Setting cfg fs us) (k : String) :
-    let idx := (run cfg σ fs us).w.idx
+    let idx := (run cfg fs us).w.idx
     cnt idx.ac k = total (·.ac) (idx.files.map (·.2.c)) k ∧
     (k ∈ idx.accounts.all ↔ 0 < cnt idx.ac k) := by
   intro idx
-  have hI := index_is_sum cfg σ fs us h
+  have hI := index_is_sum cfg fs us h
   refine ⟨hI.ac.sum k, ?_⟩
   rw [hI.derived.1, buildAccountIndex, accountIndexOf_all]
   unfold sortedKeys
@@ -42,11 +41,11 @@ theorem index_is_sum_accounts (cfg : Cfg) (σ : List String) (fs : FS) (us : Lis
 
 /-- `members_eq_reach`: after any history the indexed files are exactly the existing files
     reachable from the root through the include directives of the CURRENT contents. -/
-theorem members_eq_reach (cfg : Cfg) (σ : List String) (fs : FS) (us : List Upd)
+theorem members_eq_reach (cfg : Cfg) (fs : FS) (us : List Upd)
     (h : Setting cfg fs us) (p : String) :
-    ((run cfg σ fs us).w.idx.files.get p).isSome ↔
+    ((run cfg fs us).w.idx.files.get p).isSome ↔
       (Reach (finalFs fs us) (rootSel fs) p ∧ ((finalFs fs us).get p).isSome) := by
-  obtain ⟨h1, _, h3, _⟩ := run_ok cfg σ fs us h.ok h.nonempty h.clean h.limit h.upds
+  obtain ⟨h1, _, h3, _⟩ := run_ok cfg fs us h.ok h.nonempty h.clean h.limit h.upds
   rw [← h3]
   exact h1.closed p
 
@@ -58,14 +57,14 @@ theorem members_eq_reach (cfg : Cfg) (σ : List String) (fs : FS) (us : List Upd
     repaired code alike — and payee templates for the code repaired by
     fix-template-loss.diff (`cfg.fixT`): same payees as a rebuild, each template one of the
     member files' templates (hence THE template wherever the members agree). -/
-theorem C12_view_eq_rebuild (cfg : Cfg) (σ : List String) (fs : FS) (us : List Upd)
+theorem C12_view_eq_rebuild (cfg : Cfg) (fs : FS) (us : List Upd)
     (h : Setting cfg fs us) :
     let r := rebuildAt cfg.limit (rootSel fs) (finalFs fs us)
-    let v := (observe (run cfg σ fs us).w).1
+    let v := (observe (run cfg fs us).w).1
     membersOk r v = true ∧ countsOk r v = true ∧ namesOk r v = true ∧ txOk r v = true ∧
     declOk r v = true ∧ (cfg.fixT = true → ptOk r v = true) := by
-  obtain ⟨h1, _, h3, _⟩ := run_ok cfg σ fs us h.ok h.nonempty h.clean h.limit h.upds
-  have := view_ok cfg (finalFs fs us) (run cfg σ fs us).w h1
+  obtain ⟨h1, _, h3, _⟩ := run_ok cfg fs us h.ok h.nonempty h.clean h.limit h.upds
+  have := view_ok cfg (finalFs fs us) (run cfg fs us).w h1
   rw [h3] at this
   exact this
 
@@ -73,14 +72,14 @@ theorem C12_view_eq_rebuild (cfg : Cfg) (σ : List String) (fs : FS) (us : List 
     together with `C12_view_eq_rebuild` (and `rootSel (finalFs fs us) = rootSel fs`, the
     root being stable) the incremental view and the rebuilt view agree component by
     component. -/
-theorem rebuild_satisfies_spec (cfg : Cfg) (σ : List String) (fs : FS)
+theorem rebuild_satisfies_spec (cfg : Cfg) (fs : FS)
     (h : Setting cfg fs []) :
     let r := rebuildAt cfg.limit (rootSel fs) fs
-    let v := (observe (init cfg σ fs)).1
+    let v := (observe (init cfg fs)).1
     membersOk r v = true ∧ countsOk r v = true ∧ namesOk r v = true ∧ txOk r v = true ∧
     declOk r v = true ∧ (cfg.fixT = true → ptOk r v = true) := by
-  obtain ⟨i1, i2, _⟩ := init_ok cfg σ fs h.ok h.nonempty h.clean h.limit
-  have := view_ok cfg fs (init cfg σ fs) i1
+  obtain ⟨i1, i2, _⟩ := init_ok cfg fs h.ok h.nonempty h.clean h.limit
+  have := view_ok cfg fs (init cfg fs) i1
   rw [i2] at this
   exact this
 
@@ -89,10 +88,10 @@ theorem rebuild_satisfies_spec (cfg : Cfg) (σ : List String) (fs : FS)
     reachable state a single `UpdateFile` call — here the didChange call, made while the disk
     still has the old text — ends with the index closed under reachability, which is what the
     loop's exit condition establishes. -/
-theorem update_closes (cfg : Cfg) (σ : List String) (fs : FS) (us : List Upd) (u : Upd)
+theorem update_closes (cfg : Cfg) (fs : FS) (us : List Upd) (u : Upd)
     (h : Setting cfg fs (us ++ [u])) (p : String) :
-    let s := run cfg σ fs us
-    let w' := updateFile cfg u.σ1 s.fs s.w u.path u.c
+    let s := run cfg fs us
+    let w' := updateFile cfg s.fs s.w u.path u.c
     (w'.idx.files.get p).isSome ↔
       (Reach (s.fs.set u.path u.c) w'.root p ∧ ((s.fs.set u.path u.c).get p).isSome) := by
   intro s w'
@@ -101,37 +100,59 @@ theorem update_closes (cfg : Cfg) (σ : List String) (fs : FS) (us : List Upd) (
     simp only [updsOk, List.all_append, List.all_cons, List.all_nil, Bool.and_true,
       Bool.and_eq_true, decide_eq_true_eq] at this
     exact ⟨by simpa [updsOk] using this.1, this.2.1, this.2.2⟩
-  obtain ⟨h1, h2, _, h4⟩ := run_ok cfg σ fs us h.ok h.nonempty h.clean h.limit hus.1
+  obtain ⟨h1, h2, _, h4⟩ := run_ok cfg fs us h.ok h.nonempty h.clean h.limit hus.1
   have hs : s.fs = finalFs fs us := h4
   have hok' := fsOk_set s.fs (hs ▸ h2) u.path u.c hus.2.1 hus.2.2
-  obtain ⟨hw, _⟩ := updateFile_ok cfg u.σ1 s.fs (s.fs.set u.path u.c) s.fs s.w u.path u.c
+  obtain ⟨hw, _⟩ := updateFile_ok cfg s.fs (s.fs.set u.path u.c) s.fs s.w u.path u.c
     (hs ▸ h1) hok' (HL.Lemmas.AList.get_set_self _ _ _)
     (fun y hy => HL.Lemmas.AList.get_set_ne _ _ _ _ (Ne.symm hy))
     (fun y hy => (HL.Lemmas.AList.get_set_ne _ _ _ _ (Ne.symm hy)).symm)
   exact hw.closed p
+
+/-- `C12_templates_eq_rebuild`: for the code repaired by fix-template-loss.diff the payee
+    templates after any history are, payee by payee, those of a fresh workspace initialised
+    on the final contents (both hold the template of the member file with the smallest path
+    that has one), provided the rebuild selects the same root. -/
+theorem C12_templates_eq_rebuild (cfg : Cfg) (fs : FS) (us : List Upd) (hfix : cfg.fixT = true)
+    (h : Setting cfg fs us) (hfin : Setting cfg (finalFs fs us) [])
+    (hroot : rootSel (finalFs fs us) = rootSel fs) (p : String) :
+    (run cfg fs us).w.idx.pts.get p = (init cfg (finalFs fs us)).idx.pts.get p := by
+  obtain ⟨h1, _, h3, _⟩ := run_ok cfg fs us h.ok h.nonempty h.clean h.limit h.upds
+  obtain ⟨i1, i2, _⟩ := init_ok cfg (finalFs fs us) hfin.ok hfin.nonempty hfin.clean hfin.limit
+  exact pts_get_eq cfg (finalFs fs us) _ _ h1 i1 (by rw [h3, i2, hroot]) hfix p
+
+/-- likewise the member files and every file's index entry (hence every count) coincide with
+    those of the fresh workspace, for the pinned and the repaired code. -/
+theorem C12_files_eq_rebuild (cfg : Cfg) (fs : FS) (us : List Upd)
+    (h : Setting cfg fs us) (hfin : Setting cfg (finalFs fs us) [])
+    (hroot : rootSel (finalFs fs us) = rootSel fs) (f : String) :
+    (run cfg fs us).w.idx.files.get f = (init cfg (finalFs fs us)).idx.files.get f := by
+  obtain ⟨h1, _, h3, _⟩ := run_ok cfg fs us h.ok h.nonempty h.clean h.limit h.upds
+  obtain ⟨i1, i2, _⟩ := init_ok cfg (finalFs fs us) hfin.ok hfin.nonempty hfin.clean hfin.limit
+  exact files_get_eq cfg (finalFs fs us) _ _ h1 i1 (by rw [h3, i2, hroot]) f
 
 /-! ### commodity formats (known finding `formats-order`) -/
 
 /-- `C12_formats_partial`: if no two member files other than the root declare different
     formats for one commodity (`formatConflict = false` on the final contents), the
     commodity formats after any history are those of a rebuild. -/
-theorem C12_formats_partial (cfg : Cfg) (σ : List String) (fs : FS) (us : List Upd)
+theorem C12_formats_partial (cfg : Cfg) (fs : FS) (us : List Upd)
     (h : Setting cfg fs us) (hlim : (finalFs fs us).length ≤ cfg.limit)
     (hno : formatConflict (finalFs fs us) (rootSel fs) = false) :
     formatsOk (rebuildAt cfg.limit (rootSel fs) (finalFs fs us))
-      (observe (run cfg σ fs us).w).1 = true := by
-  obtain ⟨h1, _, h3, _⟩ := run_ok cfg σ fs us h.ok h.nonempty h.clean h.limit h.upds
-  have := HL.Lemmas.Formats.formats_ok cfg (finalFs fs us) (run cfg σ fs us).w h1 hlim (h3 ▸ hno)
+      (observe (run cfg fs us).w).1 = true := by
+  obtain ⟨h1, _, h3, _⟩ := run_ok cfg fs us h.ok h.nonempty h.clean h.limit h.upds
+  have := HL.Lemmas.Formats.formats_ok cfg (finalFs fs us) (run cfg fs us).w h1 hlim (h3 ▸ hno)
   rw [h3] at this
   exact this
 
 /-- the formats of a fresh workspace are those of the specification (no guard needed: the
     specification follows the loader's file order). -/
-theorem rebuild_formats (cfg : Cfg) (σ : List String) (fs : FS) (h : Setting cfg fs [])
+theorem rebuild_formats (cfg : Cfg) (fs : FS) (h : Setting cfg fs [])
     (hno : formatConflict fs (rootSel fs) = false) :
-    formatsOk (rebuildAt cfg.limit (rootSel fs) fs) (observe (init cfg σ fs)).1 = true := by
-  obtain ⟨i1, i2, _⟩ := init_ok cfg σ fs h.ok h.nonempty h.clean h.limit
-  have := HL.Lemmas.Formats.formats_ok cfg fs (init cfg σ fs) i1 h.limit (i2 ▸ hno)
+    formatsOk (rebuildAt cfg.limit (rootSel fs) fs) (observe (init cfg fs)).1 = true := by
+  obtain ⟨i1, i2, _⟩ := init_ok cfg fs h.ok h.nonempty h.clean h.limit
+  have := HL.Lemmas.Formats.formats_ok cfg fs (init cfg fs) i1 h.limit (i2 ▸ hno)
   rw [i2] at this
   exact this
 
@@ -153,10 +174,10 @@ def usF : List Upd :=
     equal the initial ones. -/
 theorem formats_order_counterexample :
     finalFs fsF usF = fsF ∧
-    (observe (run { fixT := true, fixG := true } [] fsF usF).w).1.formats = some [("EUR", "1.000,00 EUR")] ∧
-    (observe (init { fixT := true, fixG := true } [] (finalFs fsF usF))).1.formats = some [("EUR", "1,000.00 EUR")] ∧
+    (observe (run { fixT := true, fixG := true } fsF usF).w).1.formats = some [("EUR", "1.000,00 EUR")] ∧
+    (observe (init { fixT := true, fixG := true } (finalFs fsF usF))).1.formats = some [("EUR", "1,000.00 EUR")] ∧
     formatsOk (rebuildAt 50 "main.journal" (finalFs fsF usF))
-      (observe (run { fixT := true, fixG := true } [] fsF usF).w).1 = false ∧
+      (observe (run { fixT := true, fixG := true } fsF usF).w).1 = false ∧
     formatConflict (finalFs fsF usF) "main.journal" = true := by decide
 
 /-- the hypotheses of `C12_formats_partial` are satisfiable on a non-trivial history. -/
@@ -179,13 +200,31 @@ def usT : List Upd := [{ path := "b.journal", c := {} }]
     it, the payee's template vanishes from the workspace although a still has it; a rebuild
     keeps it.  Everything else still agrees (`C12_view_eq_rebuild`). -/
 theorem template_loss_counterexample :
-    (run {} [] fsT usT).w.idx.pts.get "Shop" = none ∧
-    (init {} [] (finalFs fsT usT)).idx.pts.get "Shop" = some "T" ∧
-    ptOk (rebuildAt 50 "main.journal" (finalFs fsT usT)) (observe (run {} [] fsT usT).w).1 = false := by
+    (run {} fsT usT).w.idx.pts.get "Shop" = none ∧
+    (init {} (finalFs fsT usT)).idx.pts.get "Shop" = some "T" ∧
+    ptOk (rebuildAt 50 "main.journal" (finalFs fsT usT)) (observe (run {} fsT usT).w).1 = false := by
   decide
 
+/-- a and b have different templates for Shop. -/
+def fsH : FS :=
+  [("main.journal", { incs := ["a.journal", "b.journal"] }),
+   ("a.journal", { pc := [("Shop", 1)], pts := [("Shop", "Ta")] }),
+   ("b.journal", { pc := [("Shop", 1)], pts := [("Shop", "Tb")] })]
+
+/-- a is saved unchanged. -/
+def usH : List Upd := [{ path := "a.journal", c := { pc := [("Shop", 1)], pts := [("Shop", "Ta")] } }]
+
+/-- `template_history_counterexample` (index.go as pinned): the stored template is the one of
+    the file indexed last; saving a makes a's template replace b's, a rebuild (files indexed
+    in path order) stores b's.  The repaired code stores a's in both. -/
+theorem template_history_counterexample :
+    (run {} fsH usH).w.idx.pts.get "Shop" = some "Ta" ∧
+    (init {} (finalFs fsH usH)).idx.pts.get "Shop" = some "Tb" ∧
+    (run { fixT := true } fsH usH).w.idx.pts.get "Shop" = some "Ta" ∧
+    (init { fixT := true } (finalFs fsH usH)).idx.pts.get "Shop" = some "Ta" := by decide
+
 /-- the repaired code (fix-template-loss.diff) keeps the template on the same history. -/
-example : (run { fixT := true } [] fsT usT).w.idx.pts.get "Shop" = some "T" := by decide
+example : (run { fixT := true } fsT usT).w.idx.pts.get "Shop" = some "T" := by decide
 
 /-! ### stale include graph of the pinned code (known finding `stale-include-graph`) -/
 
@@ -202,13 +241,13 @@ def usG : List Upd := [{ path := "c.journal", c := shop }]
     change, so the tree is not refreshed.  A rebuild has only a. -/
 theorem stale_include_graph_counterexample :
     rootSel fsG = "a.journal" ∧
-    (observe (run {} [] fsG usG).w).1.members = ["a.journal", "c.journal"] ∧
-    (observe (init {} [] (finalFs fsG usG))).1.members = ["a.journal"] ∧
-    membersOk (rebuildAt 50 "a.journal" (finalFs fsG usG)) (observe (run {} [] fsG usG).w).1 = false := by
+    (observe (run {} fsG usG).w).1.members = ["a.journal", "c.journal"] ∧
+    (observe (init {} (finalFs fsG usG))).1.members = ["a.journal"] ∧
+    membersOk (rebuildAt 50 "a.journal" (finalFs fsG usG)) (observe (run {} fsG usG).w).1 = false := by
   decide
 
 /-- the repaired code (fix-stale-include-graph.diff) ignores the update. -/
-example : (observe (run { fixG := true } [] fsG usG).w).1.members = ["a.journal"] := by decide
+example : (observe (run { fixG := true } fsG usG).w).1.members = ["a.journal"] := by decide
 
 /-- `Setting` holds for this directory under the repaired code, not under the pinned code:
     the hypothesis `graphsClean` is exactly what the finding violates. -/
@@ -231,8 +270,8 @@ def usR : List Upd :=
     `C12_view_eq_rebuild` and `rebuild_satisfies_spec` speak of the same root.) -/
 theorem root_not_reselected_counterexample :
     rootSel fsR = "a.journal" ∧ rootSel (finalFs fsR usR) = "b.journal" ∧
-    (observe (run { fixT := true, fixG := true } [] fsR usR).w).1.members = ["a.journal"] ∧
-    (observe (init { fixT := true, fixG := true } [] (finalFs fsR usR))).1.members =
+    (observe (run { fixT := true, fixG := true } fsR usR).w).1.members = ["a.journal"] ∧
+    (observe (init { fixT := true, fixG := true } (finalFs fsR usR))).1.members =
       ["a.journal", "b.journal"] := by decide
 
 /-! ### non-vacuity of the main theorems -/
